@@ -602,20 +602,38 @@ def run(ck, repo: Repo, tier: str):
     cfgr = nf.cfg_of(fn)
     lp = [p_ for p_ in positional_params(fn) if p_ != "self"][0]
     ws = [n for n in cfgr.nodes if n.kind == "stmt" and isinstance(n.ast, ast.Assign) and dotted(n.ast.targets[0]) == "self.max_priority"]
-    ck.need(len(ws) == 1, f"{PB}.reset_max_priority: expected one assignment of max_priority")
-    v = nf.poly(ws[0].ast.value, Scope(cfgr, mi, {}, PB), ws[0].id).canon()
-    g = guard_literals(nf, cfgr, mi, ws[0].id)
-    okv = v in (f"max(self.priority[:{lp}])", f"self.priority[:{lp}].max()")
-    okg = all(x in (sem_spec(nf, mi, f"{lp} > 0"), sem_spec(nf, mi, f"{lp} >= 1"), sem_spec(nf, mi, f"{lp} != 0"), lp) for x in g)
-    why = ""
-    if not okv:
-        if f"[:{lp}]" not in v and "self.priority" in v:
-            why = f"the maximum is taken over `{v}`: slots beyond the filled region hold uninitialised memory"
-        else:
-            raise AnalysisError(f"{PB}.reset_max_priority: new value `{v}` not recognised")
-    elif not okg:
-        raise AnalysisError(f"{PB}.reset_max_priority: guard {g} not recognised")
-    ck.ob("R4-bookkeeping", PB + ".reset_max_priority", "true-maximum", okv and okg, f"max_priority = {v} under {g}", why, loc(mi, fn))
+    ck.need(len(ws) >= 1, f"{PB}.reset_max_priority: no assignment of max_priority")
+    from ..sympath import enumerate_paths, PathEval
+    envr = {p_: Poly.atom(p_, {p_}, {p_}) for p_ in positional_params(fn) if p_ != "self"}
+    filled = nf.poly(parse_expr(f"self.priority[:{lp}]"), Scope(None, mi, envr, PB), None)
+    for w_ in ws:
+        g = guard_literals(nf, cfgr, mi, w_.id)
+        okg = all(x in (sem_spec(nf, mi, f"{lp} > 0"), sem_spec(nf, mi, f"{lp} >= 1"), sem_spec(nf, mi, f"{lp} != 0"), lp) for x in g)
+        seen_v = set()
+        for path in enumerate_paths(cfgr, cfgr.entry, {w_.id}):
+            pe = PathEval(nf, cfgr, mi, PB, envr)
+            for nid_, lab_ in path[:-1]:
+                pe.step(nid_, lab_)
+            val = pe.ev(w_.ast.value)
+            v = val.canon()
+            if v in seen_v:
+                continue
+            seen_v.add(v)
+            m_ = nf.meta.get(val.single_atom() or "", {})
+            arg = m_["args"][0] if m_.get("fn", "").split(".")[-1] in ("max", "amax", "nanmax") and len(m_.get("args", [])) == 1 and not m_.get("kws") else None
+            okv = arg is not None and arg == filled
+            why = ""
+            if not okv:
+                fa = filled.single_atom()
+                if arg is not None and fa is not None and fa in arg.atoms() and all(fa in dict(mono) and dict(mono)[fa] == 1 for mono in arg.terms):
+                    why = f"the maximum is taken over `{arg.canon()[:80]}`, the filled priorities multiplied by another factor (a mask): a stored priority that the factor hides is larger than the recomputed maximum, so later transitions start below it"
+                elif arg is not None and "self.priority" in arg.atoms() and fa not in arg.atoms():
+                    why = f"the maximum is taken over `{v}`: slots beyond the filled region hold uninitialised memory"
+                else:
+                    raise AnalysisError(f"{PB}.reset_max_priority: new value `{v}` not recognised")
+            elif not okg:
+                raise AnalysisError(f"{PB}.reset_max_priority: guard {g} not recognised")
+            ck.ob("R4-bookkeeping", PB + ".reset_max_priority", "true-maximum" if len(seen_v) == 1 else f"true-maximum:{len(seen_v)}", okv and okg, f"max_priority = {v[:100]} under {g}", why, loc(mi, fn))
 
     # ---- R5 formulas ---------------------------------------------------------------------------------------------------------
     for q, spec in ((RB + "lap_priority", "jnp.maximum(abs_td_error, min_priority) ** alpha"), (RB + "per_priority", "abs_td_error ** alpha + epsion")):
